@@ -1,8 +1,10 @@
 """C03 bounded stand-in (native), end to end: argument strings given to custom_target / run_target commands and to
-test() in generated projects go through the REAL `meson setup` (ninja back end, stub ninja: nothing is built); the command
-is then read back the way it will be executed — the COMMAND variable of build.ninja through a model of ninja's $-evaluation
-and of /bin/sh word splitting, the pickled exe wrapper by unpickling it, tests from intro-tests.json — and compared with the
-arguments given: same bytes, same count, same order, with the documented rewrite (backslash -> / in custom-target commands)."""
+test() in generated projects go through the REAL `meson setup` (ninja back end, stub ninja) and are then EXECUTED the way
+ninja / meson test would execute them: the COMMAND variable of build.ninja is $-evaluated (a model of ninja's evaluation — the
+only model left) and handed to the real /bin/sh -c in the build directory, so that the real shell, the real `env`, and the real
+`meson --internal exe` wrapper (capture, feed, pickled commands) run; tests are run by the real `meson test --no-rebuild`.  The
+program that is finally started dumps its argv; it must be the arguments given: same bytes, same count, same order, with the
+documented rewrite (backslash -> / in custom-target commands)."""
 import json, os, pickle, random, shlex, shutil, subprocess, sys, tempfile
 from bounded.util import chunked, pmap
 from bounded.quoting import ninja_eval
@@ -16,15 +18,23 @@ def mstr(s):
     return "'" + s.replace('\\', '\\\\').replace("'", "\\'").replace('\n', '\\n').replace('\t', '\\t') + "'"
 
 
+DUMPER = """import json, os, sys
+json.dump(sys.argv[2:], open(sys.argv[1], 'w'))
+if os.environ.get('K') is not None:
+    json.dump({'K': os.environ.get('K'), 'L': os.environ.get('L')}, open(sys.argv[1] + '.env', 'w'))
+print('captured-output')
+"""
+
+
 def gen(rnd, n):
     items = []
     for i in range(n):
         mode = MODES[i % len(MODES)]
         args = [rnd.choice(ARGS) for _ in range(rnd.randint(1, 3))]
         items.append((i, mode, args))
-    lines = ["project('argv')", "py = find_program('python3')"]
+    lines = ["project('argv')", "py = find_program('python3')", "dumper = files('dump.py')", "side = meson.current_build_dir() / 'side'"]
     for i, mode, args in items:
-        cmd = "[py, '-c', 'pass', " + ', '.join(mstr(a) for a in args) + ']'
+        cmd = "[py, dumper, side / 'a%d.json', " % i + ', '.join(mstr(a) for a in args) + ']'
         if mode == 'plain':
             lines.append(f"custom_target('p{i}', output: 'o{i}.out', command: {cmd})")
         elif mode == 'capture':
@@ -36,7 +46,7 @@ def gen(rnd, n):
         elif mode == 'run':
             lines.append(f"run_target('r{i}', command: {cmd})")
         else:
-            lines.append(f"test('t{i}', py, args: ['-c', 'pass', " + ', '.join(mstr(a) for a in args) + "])")
+            lines.append(f"test('t{i}', py, args: [dumper, side / 'a{i}.json', " + ', '.join(mstr(a) for a in args) + "])")
     return '\n'.join(lines) + '\n', items
 
 
@@ -72,6 +82,127 @@ def argv_of(text, build_dir, repo):
     return argv
 
 
+def parse_ninja(text):
+    """rules {name: {var: raw text}} and statements [{outs, rule, ins, vars{name: raw text}}] of a manifest (mini reader)"""
+    rules, builds, cur = {}, [], None
+    for l in text.split('\n'):
+        if l.startswith('rule '):
+            cur = rules.setdefault(l[5:].strip(), {})
+        elif l.startswith('build '):
+            head, _, rest = l[6:].partition(': ')
+            toks = rest.split(' ')
+            cur = {}
+            builds.append({'outs': head, 'rule': toks[0], 'ins': ' '.join(t for t in toks[1:]), 'vars': cur})
+        elif l.startswith(' ') and cur is not None and ' = ' in l:
+            k, _, v = l.strip().partition(' = ')
+            cur[k] = v
+        elif not l.strip():
+            cur = None
+    return rules, builds
+
+
+def expand(text, lookup):
+    """ninja evaluation of a command: $$ $<space> $: escapes and $var / ${var} references (values are inserted as they are)"""
+    out, i = '', 0
+    while i < len(text):
+        c = text[i]
+        if c != '$' or i + 1 >= len(text):
+            out += c
+            i += 1
+            continue
+        n = text[i + 1]
+        if n in '$ :':
+            out += n
+            i += 2
+        elif n == '{':
+            j = text.index('}', i)
+            out += lookup(text[i + 2:j])
+            i = j + 1
+        else:
+            j = i + 1
+            while j < len(text) and (text[j].isalnum() or text[j] in '_-'):
+                j += 1
+            out += lookup(text[i + 1:j])
+            i = j
+    return out
+
+
+def statement_command(rules, b):
+    """the command line ninja would hand to the shell for build statement b"""
+    r = rules[b['rule']]
+
+    def lookup(name):
+        if name == 'in':
+            return ' '.join(shlex.quote(x) if ' ' in x else x for x in [ninja_eval(t) for t in b['ins'].split(' | ')[0].split(' || ')[0].split(' ') if t])
+        if name == 'out':
+            return ninja_eval(b['outs'].split(' | ')[0])
+        if name in b['vars']:
+            return ninja_eval(b['vars'][name])
+        return ''
+    return expand(r['command'], lookup)
+
+
+CCWRAP = """#!/bin/sh
+# compiler wrapper of the C03 layer: transparent unless C03_DUMP is set, then it records its argv first
+if [ -n "$C03_DUMP" ]; then
+  exec %s %s/ccdump.py "$C03_DUMP" "$@"
+fi
+exec gcc "$@"
+"""
+CCDUMP = """import json, os, sys
+json.dump(sys.argv[2:], open(sys.argv[1], 'w'))
+"""
+CARGS = ['-DS="a b"', "-DQ='it'", '-DD=$x$$', '-DH=#;*', '-DB=a\\b', '-DBQ="c:\\dir\\"', '-DU=é', '-DE=', '-Wno-error=x y', '-DP=%PATH%~`', '/DW=a\\b c']
+LARGS = ['-Wl,--defsym=s=1', '-Wl,-rpath,$ORIGIN/a b', "-Wl,-rpath,'q'", '-Wl,--build-id=0xAB;#', '-L/x y/é', '-Wl,-z,back\\slash']
+
+
+def _cc_chunk(chunk):
+    """compile and link argument positions: the argv the compiler driver receives for per-target c_args / link_args"""
+    repo = os.environ.get('VERIF_REPO', '/repo')
+    fails, nt = [], 0
+    for seed in chunk:
+        rnd = random.Random(seed)
+        cargs = rnd.sample(CARGS, 3)
+        largs = rnd.sample(LARGS, 2)
+        d = tempfile.mkdtemp(prefix='c03cc')
+        try:
+            src, build = os.path.join(d, 'src'), os.path.join(d, 'b')
+            os.makedirs(src)
+            open(os.path.join(d, 'ccdump.py'), 'w').write(CCDUMP)
+            cc = os.path.join(d, 'ccwrap')
+            open(cc, 'w').write(CCWRAP % (sys.executable, d))
+            os.chmod(cc, 0o755)
+            open(os.path.join(src, 'm.c'), 'w').write('int main(void) { return 0; }\n')
+            open(os.path.join(src, 'meson.build'), 'w').write("project('cc', 'c')\nexecutable('e', 'm.c', c_args: [" + ', '.join(mstr(a) for a in cargs) + "], link_args: [" + ', '.join(mstr(a) for a in largs) + "])\n")
+            env = dict(os.environ, NINJA=stub_ninja(d), CC=cc)
+            env.pop('C03_DUMP', None)
+            r = subprocess.run([sys.executable, os.path.join(repo, 'meson.py'), 'setup', build, src], capture_output=True, text=True, env=env)
+            case = {'generator_seed': seed, 'c_args': cargs, 'link_args': largs}
+            if r.returncode != 0:
+                fails.append({'case': case, 'stage': 'argv-cc', 'detail': 'setup failed: ' + (r.stdout + r.stderr)[-300:]})
+                continue
+            rules, builds = parse_ninja(open(os.path.join(build, 'build.ninja'), encoding='utf-8').read())
+            for kind, given in (('compile', cargs), ('link', largs)):
+                nt += 1
+                b = next((x for x in builds if x['rule'] == ('c_COMPILER' if kind == 'compile' else 'c_LINKER')), None)
+                if b is None:
+                    fails.append({'case': case, 'stage': 'argv-cc', 'detail': f'no {kind} statement in the manifest'})
+                    continue
+                dump = os.path.join(d, kind + '.json')
+                subprocess.run(['/bin/sh', '-c', statement_command(rules, b)], cwd=build, capture_output=True, text=True, env=dict(env, C03_DUMP=dump), timeout=60)
+                if not os.path.exists(dump):
+                    fails.append({'case': case, 'stage': 'argv-cc', 'detail': f'{kind}: the compiler driver was not started'})
+                    continue
+                got = json.load(open(dump))
+                exp = [a.replace('\\', '\\\\') if (kind == 'compile' and a.startswith(('-D', '/D'))) else a for a in given]
+                pos = [got.index(x) if x in got else -1 for x in exp]
+                if -1 in pos or pos != sorted(pos):
+                    fails.append({'case': case, 'stage': 'argv-cc', 'detail': f'{kind}: the compiler driver received {got!r}; the per-target arguments {exp!r} are not among them unchanged and in order'})
+        finally:
+            shutil.rmtree(d, ignore_errors=True)
+    return len(chunk), nt, fails
+
+
 def stub_ninja(d):
     p = os.path.join(d, 'stub', 'ninja')
     os.makedirs(os.path.dirname(p), exist_ok=True)
@@ -91,35 +222,46 @@ def _argv_chunk(chunk):
             src, build = os.path.join(d, 'src'), os.path.join(d, 'b')
             os.makedirs(src)
             open(os.path.join(src, 'meson.build'), 'w').write(text)
+            open(os.path.join(src, 'dump.py'), 'w').write(DUMPER)
             r = subprocess.run([sys.executable, os.path.join(repo, 'meson.py'), 'setup', build, src], capture_output=True, text=True, env=dict(os.environ, NINJA=stub_ninja(d)))
             if r.returncode != 0:
                 fails.append({'case': {'generator_seed': seed}, 'stage': 'argv-e2e', 'detail': 'setup failed: ' + (r.stdout + r.stderr)[-300:]})
                 continue
             cmds = commands_of(build)
-            tests = {t['name']: t['cmd'] for t in json.load(open(os.path.join(build, 'meson-info', 'intro-tests.json')))}
+            os.makedirs(os.path.join(build, 'side'), exist_ok=True)
+            env = dict(os.environ, NINJA=stub_ninja(d))
+            if any(m == 'test' for _i, m, _a in items):
+                subprocess.run([sys.executable, os.path.join(repo, 'meson.py'), 'test', '--no-rebuild', '-C', build], capture_output=True, text=True, env=env)
             for i, mode, args in items:
                 nt += 1
                 case = {'generator_seed': seed, 'index': i, 'mode': mode, 'args': args}
+                side = os.path.join(build, 'side', f'a{i}.json')
                 try:
-                    if mode == 'test':
-                        got = tests[f't{i}'][3:]
-                        exp = list(args)
-                    else:
+                    if mode != 'test':
                         key = f'o{i}.out' if mode != 'run' else next((k for k in cmds if k.split('/')[-1] in (f'r{i}', f'meson-internal__r{i}', f'meson-r{i}')), None)
                         if key is None or key not in cmds:
                             fails.append({'case': case, 'stage': 'argv-e2e', 'detail': f'no COMMAND found for item {i} ({mode}) among {sorted(cmds)[:6]}'})
                             continue
-                        argv = argv_of(cmds[key], build, repo)
-                        if argv[1:3] != ['-c', 'pass']:
-                            fails.append({'case': case, 'stage': 'argv-e2e', 'detail': f'unexpected command shape {argv[:4]!r}'})
+                        pr = subprocess.run(['/bin/sh', '-c', ninja_eval(cmds[key])], cwd=build, capture_output=True, text=True, env=env, timeout=60)
+                        if pr.returncode != 0:
+                            fails.append({'case': case, 'stage': 'argv-e2e', 'detail': f'{mode}: the command failed when executed: ' + (pr.stdout + pr.stderr)[-300:]})
                             continue
-                        got = argv[3:]
-                        exp = [a.replace('\\', '/') for a in args]
+                    if not os.path.exists(side):
+                        fails.append({'case': case, 'stage': 'argv-e2e', 'detail': f'{mode}: the program was not started (no argv dump)'})
+                        continue
+                    got = json.load(open(side))
+                    exp = list(args) if mode == 'test' else [a.replace('\\', '/') for a in args]
+                    if mode == 'env':
+                        ev_ = json.load(open(side + '.env')) if os.path.exists(side + '.env') else None
+                        if ev_ != {'K': 'v w', 'L': '$y'}:
+                            fails.append({'case': case, 'stage': 'argv-e2e', 'detail': f'env: the program saw the environment values {ev_!r} instead of K="v w", L="$y"'})
+                    if mode == 'capture' and open(os.path.join(build, f'o{i}.out')).read() != 'captured-output\n':
+                        fails.append({'case': case, 'stage': 'argv-e2e', 'detail': 'capture: the output file does not hold the captured stdout'})
                 except Exception as ex:
-                    fails.append({'case': case, 'stage': 'argv-e2e', 'detail': f'the command cannot be read back: {type(ex).__name__}: {ex}'})
+                    fails.append({'case': case, 'stage': 'argv-e2e', 'detail': f'the command cannot be executed / read back: {type(ex).__name__}: {ex}'})
                     continue
                 if got != exp:
-                    fails.append({'case': case, 'stage': 'argv-e2e', 'detail': f'{mode}: the process would receive {got!r}, the build definition gives {exp!r}'})
+                    fails.append({'case': case, 'stage': 'argv-e2e', 'detail': f'{mode}: the process received {got!r}, the build definition gives {exp!r}'})
         finally:
             shutil.rmtree(d, ignore_errors=True)
     return len(chunk), nt, fails
@@ -129,9 +271,15 @@ def run(REG, tier, seed, jobs):
     n = 32 if tier == 'quick' else 600
     seeds = [seed * 7919 + i for i in range(n)]
     ev, nt, fails = pmap(_argv_chunk, chunked(iter(seeds), 2), jobs)
-    return {'parts': [{'name': 'C03/bounded/argv-end-to-end-through-meson-setup', 'function': 'meson setup (ninja back end, stub ninja): custom_target / run_target / test commands',
+    m = 12 if tier == 'quick' else 200
+    ev2, nt2, fails2 = pmap(_cc_chunk, chunked(iter([seed * 104729 + i for i in range(m)]), 1), jobs)
+    ccpart = {'name': 'C03/bounded/compiler-and-linker-argv-through-meson-setup', 'function': 'meson setup (C project, gcc behind a recording wrapper): c_args / link_args',
+              'bound': f'{m} generated C projects: 3 of {len(CARGS)} per-target c_args and 2 of {len(LARGS)} link_args with blanks, quotes, $, #, ;, *, backslashes, non-ASCII; the compile and link statements of build.ninja are evaluated by a mini ninja reader and executed by /bin/sh',
+              'evaluations': ev2, 'distinct_nontrivial': nt2, 'rule': 'every compile / link statement', 'exhaustive': False, 'failures': fails2}
+    return {'parts': [ccpart, {'name': 'C03/bounded/argv-end-to-end-through-meson-setup', 'function': 'meson setup (ninja back end, stub ninja): custom_target / run_target / test commands',
                        'bound': f'{n} generated projects x 24 commands: 1-3 arguments over {len(ARGS)} strings (blanks, quotes, $, #, ;, globs, backslashes, non-ASCII, tab, newline, ...) in 6 modes (plain, capture, env, feed, run_target, test)',
                        'evaluations': ev, 'distinct_nontrivial': nt, 'rule': 'every command', 'exhaustive': False, 'failures': fails}]}
 
 
-CHECKS = {'C03/bounded/argv-end-to-end-through-meson-setup': (_argv_chunk, lambda c: c['generator_seed'])}
+CHECKS = {'C03/bounded/compiler-and-linker-argv-through-meson-setup': (_cc_chunk, lambda c: c['generator_seed']),
+          'C03/bounded/argv-end-to-end-through-meson-setup': (_argv_chunk, lambda c: c['generator_seed'])}
